@@ -15,6 +15,9 @@ package main
 //	               (ordinary also when the base context is a system context: the kind belongs to the context object, not to
 //	               the transaction)
 //	            y  boltz.NewTxMutateContext(background, ctx.Tx()).GetSystemContext()
+//	            p / q / r  the operation is DEFERRED into a pre-commit action registered through the base context (p) or a
+//	               system context derived from it (q GetSystemContext, r NewSystemMutateContext) and runs with the context the
+//	               library hands to the action (store_c16w9.go)
 //	swallow     w  the body ignores the error of this operation and goes on (and commits) - but only the error of an UPDATE
 //	               refused by the system-entity constraint: ordinary context, the STORED flag of the target is set (read from
 //	               the open transaction before the operation), the root store carries the constraint.  Every other error
@@ -293,6 +296,11 @@ func (h *harnessDb) c16RunTx(t *hTx, modes []c16Mode) string {
 			root := op.Store
 			if d := h.w.store(op.Store); d != nil && d.Parent != "" {
 				root = d.Parent
+			}
+			if m.c16w9Deferred() {
+				// the operation runs inside a pre-commit action, with the context the library hands to it (store_c16w9.go)
+				h.c16w9Defer(ctx, t, i, m, &results)
+				continue
 			}
 			opSys := m.isSys(t.Sys)
 			swallowable := m.Swallow && !opSys && op.Kind == "UP" && h.c16RootHasSys(root) && c16StoredSys(ctx.Tx(), root, op.Id)
